@@ -119,6 +119,8 @@ func (t *Term) IsFalse() bool { return t.Op == OpConst && t.Sort.K == KBool && t
 
 // TermCtx is a per-worker term factory (not shared between goroutines).
 type TermCtx struct {
+	fracMemo map[*Term]frac
+	divPolys map[string]poly
 	tab    map[string]*Term
 	nextID uint32
 	tt, ff *Term
@@ -375,6 +377,10 @@ func (c *TermCtx) Eq(a, b *Term) *Term {
 			return c.Not(a)
 		}
 	}
+	// algebraic identities between arithmetic terms (exact rational-function normal form)
+	if (a.Sort.K == KReal || a.Sort.K == KInt) && !a.IsConst() && !b.IsConst() && isArith(a) && isArith(b) && c.algebraicallyEqual(a, b) {
+		return c.tt
+	}
 	// const == ite(c, k1, k2) with constant leaves: push the comparison into the ite (keeps BV
 	// encodings of small enumerations such as Sign() or orientation codes out of arithmetic queries)
 	if a.IsConst() && b.Op == OpIte && a.Sort.K == KBV && iteConstLeaves(b, 0) {
@@ -389,6 +395,14 @@ func (c *TermCtx) Eq(a, b *Term) *Term {
 		a, b = b, a
 	}
 	return c.mk(&Term{Op: OpEq, Sort: SBool, Args: []*Term{a, b}})
+}
+
+func isArith(t *Term) bool {
+	switch t.Op {
+	case OpAdd, OpSub, OpMul, OpDiv, OpNeg, OpToReal:
+		return true
+	}
+	return false
 }
 
 func iteConstLeaves(t *Term, depth int) bool {
